@@ -678,6 +678,10 @@ func (st *State) resolveSpecType(name string, env *specEnv) (types.Type, Sort) {
 		return nil, SBytes
 	case "Ref":
 		return nil, SRef
+	case "Iface":
+		return nil, SIface
+	case "Str":
+		return nil, SStr
 	case "Bool":
 		return types.Typ[types.Bool], SBool
 	}
@@ -812,6 +816,13 @@ func (st *State) specCall(e *SExpr, env *specEnv) Value {
 			x := st.evalSpec(args[0], env)
 			T, _ := st.resolveSpecType(args[1].String(), env)
 			return Value{T: boolT, S: SBool, Term: eq(app("i_tag", x.Term), fmt.Sprint(te.TypeID(T)))}
+		case "box":
+			// box(x): x converted to an interface value (as Go's implicit conversion does)
+			x := st.evalSpec(args[0], env)
+			if x.T == nil {
+				env.fail("box of a value without a Go type")
+			}
+			return st.makeInterface(x, x.T, types.NewInterfaceType(nil, nil))
 		case "pure_fn":
 			// pure_fn(f): calling the function value f changes nothing the caller can observe
 			x := st.evalSpec(args[0], env)
